@@ -791,6 +791,20 @@ func (d *Driver) begin(j *job) {
 			if !SameLax(pred, am, d.resolve) {
 				argsOk = false
 				detail = "predicted " + Canon(pred) + " got " + Canon(am)
+			} else if pm, ok := pred.(map[string]interface{}); ok {
+				// a parameter whose value is null is still handed to the job (stage code
+				// reads it by name): the latitude is about the value, not the key
+				var absent []string
+				for k := range pm {
+					if _, ok := am[k]; !ok {
+						absent = append(absent, k)
+					}
+				}
+				if len(absent) > 0 {
+					sort.Strings(absent)
+					argsOk = false
+					detail = "predicted " + Canon(pred) + " got " + Canon(am) + ": no entry at all for " + strings.Join(absent, ", ")
+				}
 			}
 		}
 		if argsOk && j.inv.Kind == "join" {
